@@ -13,7 +13,7 @@ from ..spec import spec
 from .c02 import check_ess
 from .common import SELF, fold, loc_of, self_attr
 from .schedule import population_weights
-from .smcloop import SMC, find_smc_loop, fold_sample, history_appends
+from .smcloop import SMC, find_smc_loop, fold_sample, history_appends, roles
 
 META = {
     "explanation": (
@@ -145,7 +145,7 @@ def run(ctx):
             ok = set(by) <= {"sample_history"} and len(by.get("sample_history", [])) == 1
             lpr = sf.loop
             first = by.get("sample_history", [None])[0]
-            okv = first is not None and lpr is not None and first.args[1] == lpr["pre"].get("samples") and first.node.lineno < loop_node.lineno
+            okv = first is not None and lpr is not None and first.args[1] == lpr["pre"].get(roles(repo).samples) and first.node.lineno < loop_node.lineno
             ctx.decide(ok and okv, "C18.init", sample.ident, loc_of(sample, first.node if first else loop_node),
                        "[fresh] the initial population is recorded exactly once, before the loop",
                        f"[fresh] appends outside the loop: { {k: len(v) for k, v in by.items()} } (expected exactly the initial population, once, before the loop)", disc="fresh")
@@ -166,7 +166,8 @@ def run(ctx):
     # ---- definitions of the appended values
     sf = fold_sample(repo, resumed=False, final=False)
     lpr = sf.loop
-    head_s, body_b = lpr["head"].get("samples"), lpr["body"].get("beta")
+    R = roles(repo)
+    head_s, body_b = lpr["head"].get(R.samples), lpr["body"].get(R.beta)
     la = {e.args[0][2]: e for e in sf.events("method:append", in_loop=True) if e.args and e.args[0][0] == "attr"}
     def chk(sname, ok, good, bad):
         e = la.get(sname)
@@ -186,7 +187,7 @@ def run(ctx):
         ev2, r2 = fold(repo, cte, smc, args={cte.params[1]: body_b}, ev=sf.ev)
         ctx.decide(v == T.strip_raise(r2), "C18.def", sample.ident, loc_of(sample, tgt.node), "history.eff_target == current_target_efficiency(this iteration's beta)",
                    f"history.eff_target receives {T.show(v)[:160]}", disc="eff_target")
-    chk("sample_history", lambda v: v == lpr["body"].get("samples"), "the stored population is this iteration's mutate result",
+    chk("sample_history", lambda v: v == lpr["body"].get(R.samples), "the stored population is this iteration's mutate result",
         lambda v: f"history.sample_history receives {T.show(v)[:100]}, not the population produced by this iteration")
     lw1 = ("f", "method:log_weights", (head_s, T.ONE), ())
     chk("ess_target", lambda v: v == ("f", "call:aspire.utils:effective_sample_size", (lw1,), ()),
